@@ -24,6 +24,8 @@ structure SPath where
 
 inductive Operand
   | lit (s : Str) | num (x : SF) | scalar (e : Expr) | path (p : SPath)
+  /-- a function result whose arguments include paths: `.env i` in `e` stands for the value of `ps[i]` -/
+  | scalarP (e : Expr) (ps : List SPath)
   deriving Repr
 
 inductive Step
@@ -62,6 +64,11 @@ def operandValue (t : Tree) (here : Path) : Operand → Str × List String
     let base := rootBase here p.root
     let rp := { base with elems := base.elems ++ p.steps.map sstepElem }
     (litOf (t.value rp), navReq rp)
+  | .scalarP e ps =>
+    -- every argument path is resolved, in source order, and the function sees the values the tree reports
+    let rps := ps.map fun p => let base := rootBase here p.root; { base with elems := base.elems ++ p.steps.map sstepElem }
+    let env : Nat → Datum := fun i => match rps[i]? with | some rp => t.value rp | none => .emptyNodeset
+    ((match eval true env e with | some v => stringOf v | none => []), rps.flatMap navReq)
 
 /-- attach the predicates of one step: requests in source order, keys as a map sorted by key name -/
 def stepKeys (t : Tree) (here : Path) : List (Str × Operand) → List (Str × Str) × List String
